@@ -565,6 +565,20 @@ def r07_6(run, model):
             order.append((e["method"], e))
             e = e["recv"]
         order.reverse()
+        # a chain that starts at a named intermediate result (`let exact = ctx.orig_fns.get(name); exact.or_else(..)`) continues in its initialiser
+        hops = 0
+        while e["k"] == "Path" and len(e["segs"]) == 1 and hops < 3:
+            inits = [l["init"] for l in S.find(f.body, "Local") if l["pat"]["k"] == "PIdent" and l["pat"]["name"] == e["segs"][0] and l.get("init") is not None]
+            if len(inits) != 1:
+                break
+            e = inits[0]
+            pre = []
+            while e["k"] == "MethodCall":
+                pre.append((e["method"], e))
+                e = e["recv"]
+            pre.reverse()
+            order = pre + order
+            hops += 1
         first = order[0] if order else None
         root_field = e.get("member") if e["k"] == "Field" else None
         arg0 = first[1]["args"][0] if first and first[1]["args"] else None
